@@ -14,7 +14,7 @@ import (
 // C11: services merge calendar.txt and calendar_dates.txt correctly.
 
 var c11Rec = vt.NewRecorder("C11", "TestC11",
-	"feeds whose services are calendar-only, calendar_dates-only and combined (all three forced in every case), exception rows of type 1, 2 and ignored types (0, 3, 9), dates before / on the edges of / after the calendar range, "+
+	"feeds whose services are calendar-only, calendar_dates-only and combined (all three forced in every case), exception rows of type 1, 2 and ignored types (0, 3, 9), dates before / on the edges of / after the calendar range, ranges that end (start) at a night with a clock change in the agency zone whose only outside exception is the day across that night (23 or 25 hours away), "+
 		"duplicated rows, shuffled row order, 1-3 agencies whose first zone is a DST zone, a fixed-offset zone, UTC or an unknown name. "+
 		"Oracle: reference merge (one service per id with a valid calendar row or valid type-1/2 row; weekday flags; added/removed in file order; every date = civil midnight in the first agency's zone, UTC fallback; "+
 		"start=min, end=max over range and type-1/2 dates) plus start <= each added/removed <= end and Trip.Service resolving to the service of that id. "+
